@@ -36,6 +36,7 @@ if __name__ == '__main__':
     if args[:1] == ['-j']: j = int(args[1]); args = args[2:]
     seeds = args or sorted(d for d in os.listdir('/verif/seeded') if os.path.isdir(os.path.join('/verif/seeded', d)))
     props = [c['property_id'] for c in json.load(open('/verif/MANIFEST.json'))['checks']]
+    if args[:1] == ['-p']: props = args[1].split(','); args = args[2:]; seeds = args or seeds
     mpath = '/verif/seeded/MATRIX.json'
     matrix = json.load(open(mpath)) if os.path.exists(mpath) else {}
     with cf.ThreadPoolExecutor(j) as ex:
